@@ -63,8 +63,16 @@ def check_case(ctx, cs):
     d = tempfile.mkdtemp(prefix="verif_c14_")
     try:
         objs = [build(s) for s in shapes]
+        def samp(k, pd):           # per-direction sampling (u and w equal, v different): the density travels with JSON
+            return [3 + k] if pd == 1 else ([3 + k, 5 + k] if pd == 2 else [3 + k, 5 + k, 3 + k])
         for k, ob in enumerate(objs):
-            ob.sample_size = 3 + k          # sampling density travels with JSON
+            ss = samp(k, ob.pdimension)
+            if ob.pdimension == 1:
+                ob.sample_size = ss[0]
+            elif ob.pdimension == 2:
+                ob.sample_size_u, ob.sample_size_v = ss
+            else:
+                ob.sample_size_u, ob.sample_size_v, ob.sample_size_w = ss
         tgt = container(kind, objs)
         if op == "json":
             fn = os.path.join(d, "x.json")
@@ -101,8 +109,8 @@ def check_case(ctx, cs):
                 for k, g in enumerate(got):
                     ss = g.sample_size
                     ss = [ss] if isinstance(ss, int) else list(ss)
-                    if any(x != 3 + k for x in ss):
-                        ctx.violate("exchange.import_json", tg + ["delta"], small, {"expected_sample_size": 3 + k, "got": ss})
+                    if ss != samp(k, g.pdimension):
+                        ctx.violate("exchange.import_json", tg + ["delta"], small, {"expected_sample_size": samp(k, g.pdimension), "got": ss})
                         break
         elif op in ("smesh", "vmesh"):
             fn = os.path.join(d, "mesh.txt")
@@ -217,12 +225,17 @@ def check_trims(ctx):
         a = BSpline.Curve(); a.degree = 1; a.ctrlpts = [[0.6, 0.6], [0.9, 0.6]]; a.knotvector = [0, 0, 1, 1]
         b = BSpline.Curve(); b.degree = 1; b.ctrlpts = [[0.9, 0.6], [0.6, 0.6]]; b.knotvector = [0, 0, 1, 1]
         t3.add([a, b])
-        s.trims = [t1, t2, t3]
+        t4 = multi.CurveContainer()
+        a4 = BSpline.Curve(); a4.degree = 1; a4.ctrlpts = [[0.1, 0.8], [0.3, 0.8]]; a4.knotvector = [0, 0, 1, 1]
+        b4 = BSpline.Curve(); b4.degree = 1; b4.ctrlpts = [[0.3, 0.8], [0.1, 0.8]]; b4.knotvector = [0, 0, 1, 1]
+        t4.add([a4, b4])
+        s.trims = [t1, t2, t3, t4]
         fn = os.path.join(d, "t.json")
         exchange.export_json(s, fn)
+        exchange.import_json(fn)                       # a first import in the same interpreter
         g = exchange.import_json(fn)[0]
         tr = g.trims
-        ok = (len(tr) == 3 and tr[0].type == "spline" and close_seq([list(p) for p in tr[0].ctrlpts], t1.ctrlpts, 1e-12)
+        ok = (len(tr) == 4 and len(tr[3]) == 2 and close_seq([list(p) for p in tr[3][0].ctrlpts], a4.ctrlpts, 1e-12) and tr[0].type == "spline" and close_seq([list(p) for p in tr[0].ctrlpts], t1.ctrlpts, 1e-12)
               and close_seq(list(tr[0].knotvector), list(t1.knotvector), 1e-12) and tr[0].opt_get("reversed") == 1
               and close_seq([list(p) for p in tr[1].evalpts], [list(p) for p in t2.evalpts], 1e-12)
               and len(tr[2]) == 2 and close_seq([list(p) for p in tr[2][1].ctrlpts], b.ctrlpts, 1e-12))
